@@ -412,7 +412,7 @@ func summarizePurge(c *core.Ctx, f *core.Func) *purgeSummary {
 		if k != core.CallStatic || cal.Recv != "tableIDs" || len(call.Args) != 1 || !returnsBool(cal) {
 			return nil, false
 		}
-		if fieldKeyOf(m, call.Args[0]) != "table.id" {
+		if fieldKeyDeep(m, f, call.Args[0], 0) != "table.id" {
 			return nil, false
 		}
 		if sel, ok := ast.Unparen(call.Fun).(*ast.SelectorExpr); ok {
